@@ -2,6 +2,7 @@
 // templates of /repo instantiated at the exact rational scalar (properties C02 C03 C04 C09 C10 C15).
 #include "common.h"
 #include <cstring>
+#include <thread>
 #include "Pauli.h"
 #include "Minkowski.h"
 #include "Spinor.h"
@@ -219,6 +220,22 @@ int main ()
 
   // ---- Minkowski (C15) ----
   OP("mk.inner") { auto a=A.vec<4>(); auto b=A.vec<4>(); O.put (Minkowski::inner(a,b)); };
+  // oracle: the outer product is a VALUE: twelve results kept alive at once (bound to const references, which extends the life of
+  // a returned temporary) and twelve calls inside one expression, against copies taken one call at a time.
+  // Output: entries of the kept results that changed, then entries of the one-expression sum that differ from the sum of the copies
+  OP("o.c15.manyouter") { std::vector< Vector<4,Rat> > a, b; for (unsigned i=0;i<12;i++) { a.push_back (A.vec<4>()); b.push_back (A.vec<4>()); }
+    std::vector< Matrix<4,4,Rat> > want; for (unsigned i=0;i<12;i++) { Matrix<4,4,Rat> c = Minkowski::outer (a[i], b[i]); want.push_back (c); }
+#define KEEP(i) const Matrix<4,4,Rat>& r##i = Minkowski::outer (a[i], b[i]);
+    KEEP(0) KEEP(1) KEEP(2) KEEP(3) KEEP(4) KEEP(5) KEEP(6) KEEP(7) KEEP(8) KEEP(9) KEEP(10) KEEP(11)
+#undef KEEP
+    const Matrix<4,4,Rat>* kept[12] = { &r0, &r1, &r2, &r3, &r4, &r5, &r6, &r7, &r8, &r9, &r10, &r11 };
+    long changed = 0; for (unsigned i=0;i<12;i++) for (unsigned r=0;r<4;r++) for (unsigned c=0;c<4;c++) if (!((*kept[i])[r][c] == want[i][r][c])) changed++;
+#define CALL(i) Minkowski::outer (a[i], b[i])
+    Matrix<4,4,Rat> sum = CALL(0) + CALL(1) + CALL(2) + CALL(3) + CALL(4) + CALL(5) + CALL(6) + CALL(7) + CALL(8) + CALL(9) + CALL(10) + CALL(11);
+#undef CALL
+    Matrix<4,4,Rat> ref = want[0]; for (unsigned i=1;i<12;i++) ref += want[i];
+    long differ = 0; for (unsigned r=0;r<4;r++) for (unsigned c=0;c<4;c++) if (!(sum[r][c] == ref[r][c])) differ++;
+    O.put (Rat (changed)); O.put (Rat (differ)); };
   OP("mk.outer") { auto a=A.vec<4>(); auto b=A.vec<4>(); O.put (Minkowski::outer(a,b)); };
   OP("mk.innerS") { auto a=A.stokes(); auto b=A.stokes(); O.put (Minkowski::inner(a,b)); O.put (a.invariant()); };
 
@@ -361,6 +378,19 @@ int main ()
     O.put (Stokes<Rat>(t - coherency (JR(JR(j*convert(s))*herm(j)))));
     JR jcopy = j; Matrix<4,4,Rat> M = Mueller (jcopy); O.put (Stokes<Rat>(t - Stokes<Rat>(M*s)));
     O.put (Rat(t.invariant() - norm(det(j))*s.invariant())); };
+  // the basis is process-wide: what the main thread set is what a second thread (started after the setting, joined before its
+  // results are read: no concurrency) converts with.  Outputs (all zero): convert on the thread - convert on main; the round trip
+  // main -> thread; transform and Mueller on the thread - on main; then the setting made on a thread seen from main
+  OP("o.c02.thread") { BasisRestore r; apply_basis (A); auto s=A.stokes(); auto j=A.jones();
+    JR c = convert (s); Stokes<Rat> t = transform (s, j); Matrix<4,4,Rat> M = Mueller (j);
+    JR c2; Stokes<Rat> back, t2; Matrix<4,4,Rat> M2;
+    { std::thread th ([&]() { c2 = convert (s); back = coherency (c); t2 = transform (s, j); M2 = Mueller (j); }); th.join (); }
+    O.put (JR(c2 - c)); O.put (Stokes<Rat>(back - s)); O.put (Stokes<Rat>(t2 - t)); for (unsigned i=0;i<4;i++) for (unsigned k=0;k<4;k++) O.put (Rat(M2[i][k] - M[i][k]));
+    // a second setting, made on a thread, then used on main: compared with the same setting made on main
+    Args B1; while (!A.done()) B1.tok.push_back (A.next()); Args B2 = B1;
+    { std::thread th ([&]() { apply_basis (B1); }); th.join (); } JR c3 = convert (s);
+    apply_basis (B2); JR c4 = convert (s);
+    O.put (JR(c3 - c4)); };
   OP("o.c02.transformC") { BasisRestore r; apply_basis (A); auto s=A.cstokes(); auto j=A.jones();
     Stokes<CRat> t = transform (s, j); Matrix<4,4,Rat> M = Mueller (j);
     for (unsigned i=0;i<4;i++) { CRat acc (0); for (unsigned k=0;k<4;k++) acc += CRat(M[i][k])*s[k]; O.put (CRat(t[i] - acc)); } };
